@@ -114,7 +114,16 @@ def check(ctx):
             w = ln.split(" ", 1); script.append(w[0] + "N " + w[1])
     ctx.samples.append({"calls": [script[1], script[len(script) // 2], script[-1]]})
     t = ctx.drive(drv, script, "stdlib")
-    bad = ctx.judge("StdlibTrace", [t], shards=16)
+    # texts of 2 GiB and more: 2^31 (+ a little) white-space characters or leading zeros in front of a short numeral - consumed-character
+    # counts and end offsets that do not fit 31 bits; one process, the buffer is filled once per (character, count)
+    big = ["R 1"]
+    fns = ["strtol", "strtoimax", "strtoul", "strtoll"] + (["strtoull", "strtoumax", "atol", "atoi"] if ctx.thorough else [])
+    for ch, k in ((48, 2 ** 31 + 3), (32, 2 ** 31 + 1)) + (((48, 2 ** 31 - 1), (32, 2 ** 32 + 5)) if ctx.thorough else ()):
+        for fn in fns:
+            tail = rng.choice(["12345", "-77", "9", "+4096 "]) if ch == 32 else rng.choice(["12345", "7x", "", "00019 "])
+            big.append("StrtoBig %s %d %d %s %d" % (fn, ch, k, fmt([ord(c) for c in tail]), 10))
+    tb = ctx.drive(drv, big, "stdlib_big", timeout=1500, par=1)
+    bad = ctx.judge("StdlibTrace", [t, tb], shards=16)
     for b in bad: b["driver"] = "drv_stdlib"
     ctx.report(bad)
     ctx.assumptions += [
@@ -132,6 +141,10 @@ def replay(ctx, path):
     e = d["event"]
     if e.get("e") == "Fault":
         return core.replay_fault(ctx, d, drv, "StdlibTrace", path)
+    if e["e"] == "StrtoBig":
+        t = ctx.drive(drv, ["R 1", "StrtoBig %s %d %s %s %d" % (e["fn"], e["ch"], e["ks"], fmt(e["tail"]), e["base"])], "replay", timeout=1500)
+        ctx.report(ctx.judge("StdlibTrace", [t]))
+        return ctx.finish(rule="replay of " + path)
     if e["e"] == "Strto": ln = "Strto %s %s %d" % (e["fn"], fmt(e["text"]), e["base"])
     elif e["e"] == "Qsort": ln = "Qsort%s %d %d %s" % ("N" if e.get("nested") else "", e["size"], e["div"], fmt(e["keys"]))
     else: ln = "Bsearch%s %d %d %s %d" % ("N" if e.get("nested") else "", e["size"], e["div"], fmt(e["keys"]), e["key"])
